@@ -108,6 +108,38 @@ def rule_costs_and_replay(ctx, rep, config="c-lib"):
     else:
         rep.violation("C11-actions", "yyparse/anode_cost", "the abstract node cost is assigned constants %s (documented default cost: 1; otherwise the NUMBER given)" % cs,
                       where=sts[0].where() if sts else yp.where())
+    # both assignments are the two alternatives of ONE nonterminal of the description grammar (the default in
+    # its empty alternative): read off the bison tables yyr1 (lhs of rule) / yyr2 (length of rule)
+    def table(name):
+        for gn, gd in p.m.globals.items():
+            if (gn == name or gn.startswith(name + "@")) and "str" in gd:
+                return [ord(ch) for ch in gd["str"]]
+        return None
+    yyr1, yyr2 = table("yyr1"), table("yyr2")
+    sw = [i for i in yp.all_insts() if i.op == "switch" and len(i.d["cases"]) > 10]
+    if yyr1 is None or yyr2 is None or len(sw) != 1:
+        raise AnalysisBroken("bison tables yyr1/yyr2 or the action switch of yyparse not found")
+    case_of = {}
+    for (v, bname) in sw[0].d["cases"]:
+        case_of.setdefault(bname, []).append(v)
+
+    def rule_no(st):
+        b = st.block.name
+        seen = set()
+        while b is not None and b not in case_of and b not in seen:
+            seen.add(b)
+            preds = [x for x in yp.bmap[b].preds if yp.reachable(x)]
+            b = preds[0] if len(preds) == 1 else None
+        return case_of.get(b, [None])[0] if b else None
+    c1 = [rule_no(s) for s in sts if const_int(s.ops[0]) == 1]
+    c2 = [rule_no(s) for s in noncs]
+    okalt = len(c1) == 1 and len(c2) == 1 and None not in (c1[0], c2[0]) and c1[0] < len(yyr1) and c2[0] < len(yyr1) and \
+        yyr1[c1[0]] == yyr1[c2[0]] and yyr2[c1[0]] == 0 and yyr2[c2[0]] == 1
+    if okalt:
+        rep.ok("C11-actions", "yyparse/cost-alternatives", sample={"default_rule": c1[0], "explicit_rule": c2[0], "lhs_symbol": yyr1[c1[0]]})
+    else:
+        rep.violation("C11-actions", "yyparse/cost-alternatives", "the default cost 1 and the explicit cost are not assigned by the empty and the NUMBER alternative of one "
+                      "nonterminal: a translation without a cost does not reliably get cost 1 (rules %s / %s)" % (c1, c2), where=sts[0].where() if sts else yp.where())
     ye = p.fn("yaep_yyerror")
     calls = [i for i in ye.calls() if i.callee == "yaep_error"]
     ok = len(calls) == 1 and const_int(calls[0].args[0]) == mac["YAEP_DESCRIPTION_SYNTAX_ERROR_CODE"]
